@@ -128,5 +128,16 @@ def verdict_dev(events):
     return [r[2] for r in rej]
 expect("TraceIngest: ONE early row after one swap (the recorded deviation's shape)", verdict_dev(one + stats), False)
 expect("TraceIngest: TWO early rows after one swap", verdict_dev(two + stats), True)
+# 5. the code-shaped models' design alternatives: the OLD order of the engine's steps fails an invariant in the model (TLC), the repaired one holds
+import win
+def model_violates(c):
+    invs = "OneFirstFiring DeliveriesOKDev NoOnTimeLoss WmOK ImplOK NotBeforeS0 LateRedelivered"
+    cfg = "SPECIFICATION Spec\nCONSTANTS %s\nINVARIANTS %s\nVIEW View\nCHECK_DEADLOCK FALSE\n" % (win.consts("sliding", c, False, "C02"), invs)
+    r = vlib.tlc(win.SPEC, "Sliding", cfg, workers=8, timeout=600)
+    return [r["violated"]] if r.get("violated") else []
+late2 = dict(size=2, slide=1, moo=0, al=4, maxts=4, maxev=4)
+expect("Sliding.tla: late re-deliveries computed one by one with the lock released in between (old code)", model_violates(dict(late2, late_one_by_one=True)), True)
+expect("Sliding.tla: all snapshots updated before the first late re-delivery (repaired code)", model_violates(late2), False)
+expect("Sliding.tla: fired window registered for late rows only after its delivery (old code)", model_violates(dict(size=4, slide=2, moo=1, al=1, maxts=5, maxev=4, register_late=True)), True)
 print("SELFTEST", "passed" if ok else "FAILED")
 sys.exit(0 if ok else 1)
